@@ -285,3 +285,43 @@ Example C05_graph_sample :
              skipn 8 (snd (ga_run ga_init l)) = [GbVal (-1); GbVal 1; GbVal cg_i64_min; GbNum 3; GbErr CvIndex].
 Proof. eexists. split; vm_compute; reflexivity. Qed.
 Print Assumptions C05_graph_sample.
+
+(* ---- vectors of database values (db_index.rs: VecValue for DbValue; db_key_value.rs: VecValue for DbKeyValue) ----
+   The slot is the 16-byte value index of C12 (values of up to 15 bytes inline, everything longer and all vectors in
+   ONE record owned by the slot), a key-value pair is two of them.  CollValuesProofs.v derives `elem_law` for both from
+   the theorems of C12 (C12_roundtrip through the bounds checks of the current load_db_value, the shape of the index
+   store_db_value produces, C12_remove_frees_exactly) — so C05_vec_history holds for DbVec<DbValue> (the key vectors of
+   the index multi-maps) and DbVec<DbKeyValue> (the property lists of the elements); here on the model of storage.rs.
+   Values must be `wf_value` (what a Rust program can hold: i64 range, valid UTF-8, lengths < 2^60). *)
+From Agdb Require Import DbValue ValueIndex CollValues CollValuesProofs.
+
+Theorem C05_vec_history_on_storage_dbvalue :
+  forall (ops : store_ops cdata) (fl : bool), StorageProofs.kind ops fl ->
+  forall l : list (cv_op dbvalue), ops_ok dbvalue ce_dbvalue law_dbvalue [] l ->
+    let r := cp_run (st_step cdata ops) (h <~ cv_new ;; cv_run dbvalue ce_dbvalue h l) s_init in
+    snd r = CrDead \/
+    exists h' sp' slots', snd r = CrOk (h', snd (cl_run [] l)) /\ Rel (fst r) sp' /\
+                          vrep dbvalue ce_dbvalue law_dbvalue (hp sp') h' slots' (fst (cl_run [] l)).
+Proof. exact (cv_history_on_storage dbvalue ce_dbvalue law_dbvalue). Qed.
+Print Assumptions C05_vec_history_on_storage_dbvalue.
+
+Theorem C05_vec_history_on_storage_dbkv :
+  forall (ops : store_ops cdata) (fl : bool), StorageProofs.kind ops fl ->
+  forall l : list (cv_op (dbvalue * dbvalue)), ops_ok (dbvalue * dbvalue) ce_dbkv law_dbkv [] l ->
+    let r := cp_run (st_step cdata ops) (h <~ cv_new ;; cv_run (dbvalue * dbvalue) ce_dbkv h l) s_init in
+    snd r = CrDead \/
+    exists h' sp' slots', snd r = CrOk (h', snd (cl_run [] l)) /\ Rel (fst r) sp' /\
+                          vrep (dbvalue * dbvalue) ce_dbkv law_dbkv (hp sp') h' slots' (fst (cl_run [] l)).
+Proof. exact (cv_history_on_storage (dbvalue * dbvalue) ce_dbkv law_dbkv). Qed.
+Print Assumptions C05_vec_history_on_storage_dbkv.
+
+(* non-vacuity: a 16-byte string (out of line) and an inline integer as a pair, replaced, reloaded, removed *)
+Example C05_vec_sample_dbkv :
+  let big := DString [x30; x31; x32; x33; x34; x35; x36; x37; x38; x39; x61; x62; x63; x64; x65; x66] in
+  let l := [VoPush (big, DI64 (-1)); VoPush (DU64 7, DVecI64 [1; 2]%Z); VoReload; VoMaint SOptimize; VoMaint SReopen; VoReload;
+            VoReplace 0 (DString [x41], big); VoSwap 0 1; VoValues; VoRemove 0; VoValues] in
+  exists h', snd (cp_run (st_step cdata ops_file) (h <~ cv_new ;; cv_run (dbvalue * dbvalue) ce_dbkv h l) s_init)
+               = CrOk (h', snd (cl_run [] l)) /\
+             last (snd (cl_run [] l)) VbUnit = VbVals [(DString [x41], big)].
+Proof. eexists. split; vm_compute; reflexivity. Qed.
+Print Assumptions C05_vec_sample_dbkv.
